@@ -47,12 +47,55 @@ func isContainer(t types.Type) bool {
 }
 
 // throughKeys: the containers an lvalue expression writes through.
+// elemPtrKeys: locals defined as p := &S.F[i] (a pointer to an element of an ir slice field): a write through p
+// writes the storage of S.F.
+var elemPtrKeys = map[types.Object]string{}
+
+func noteElemPtrs(info *types.Info, body ast.Node) {
+	ast.Inspect(body, func(n ast.Node) bool {
+		as, ok := n.(*ast.AssignStmt)
+		if !ok || len(as.Lhs) != len(as.Rhs) {
+			return true
+		}
+		for i := range as.Lhs {
+			id, ok := as.Lhs[i].(*ast.Ident)
+			if !ok {
+				continue
+			}
+			u, ok := ast.Unparen(as.Rhs[i]).(*ast.UnaryExpr)
+			if !ok || u.Op != token.AND {
+				continue
+			}
+			ix, ok := ast.Unparen(u.X).(*ast.IndexExpr)
+			if !ok {
+				continue
+			}
+			sel, ok := ast.Unparen(ix.X).(*ast.SelectorExpr)
+			if !ok {
+				continue
+			}
+			if tv, ok := info.Types[sel.X]; ok {
+				if tn := irTypeName(tv.Type); tn != "" {
+					if o := info.ObjectOf(id); o != nil {
+						elemPtrKeys[o] = tn + "." + sel.Sel.Name
+					}
+				}
+			}
+		}
+		return true
+	})
+}
+
 func throughKeys(info *types.Info, lhs ast.Expr) []string {
 	var keys []string
 	var walk func(e ast.Expr)
 	containerKey := func(x ast.Expr) string {
 		// x is the expression denoting the container (slice/pointer/map)
 		switch y := ast.Unparen(x).(type) {
+		case *ast.Ident:
+			if k, ok := elemPtrKeys[info.Uses[y]]; ok {
+				return k
+			}
 		case *ast.SelectorExpr:
 			if sel := info.Selections[y]; sel != nil && sel.Kind() == types.FieldVal {
 				if tv, ok := info.Types[y.X]; ok {
@@ -123,6 +166,7 @@ func (c *Ctx) writeThroughSites(fn *funcInfo) []wtSite {
 		return v.([]wtSite)
 	}
 	info := fn.Pkg.Info
+	noteElemPtrs(info, fn.Decl.Body)
 	var out []wtSite
 	add := func(keys []string, pos token.Pos) {
 		for _, k := range keys {
